@@ -110,6 +110,19 @@ func buildScenarios(t *gen.Tree, good []string, rng *rand.Rand, tier string) []*
 	for fi, f := range fmts {
 		out = append(out, &scen{family: "success-out-over-other-layout", tree: t, argvPre: append([]string{}, f...), srcArg: ".", names: pick(1), cwdRel: src, out: mkOut(fi), prior: "ownlayout"})
 	}
+	// run from the module root with a relative -out: a file of the same relative name below the source directory
+	// is a bystander
+	for i, pr := range []string{"own", "old", "absent"} {
+		if tier == "quick" && i == 2 {
+			continue
+		}
+		out = append(out, &scen{family: "success-out-relative-from-module-root", tree: t, argvPre: []string{"-pkg", "genmocks"}, srcArg: "./" + src, names: pick(1), cwdRel: ".", out: "genmocks/mock_gen.go", rm: i != 1, prior: pr,
+			setup: func(root string) {
+				d := filepath.Join(root, src, "genmocks")
+				os.MkdirAll(d, 0o755)
+				os.WriteFile(filepath.Join(d, "mock_gen.go"), []byte("package genmocks\n\n// Bystander must survive.\nconst Bystander = 1\n"), 0o644)
+			}})
+	}
 	out = append(out, &scen{family: "success-stdout", tree: t, srcArg: ".", names: pick(2), cwdRel: src, prior: "absent"})
 	out = append(out, &scen{family: "success-stdout", tree: t, argvPre: []string{"-stub", "-pkg", t.SrcName + "_test"}, srcArg: "./" + src, names: pick(1), cwdRel: ".", prior: "absent"})
 	// ---- failures: bad name at position k of n
@@ -142,6 +155,22 @@ func buildScenarios(t *gen.Tree, good []string, rng *rand.Rand, tier string) []*
 			}
 			out = append(out, s)
 		}
+	}
+	// a bad name whose mock name equals that of an earlier, valid argument (explicitly, or through the default
+	// <Name>Mock): it must be looked up and rejected all the same
+	for i, b := range bads {
+		if tier == "quick" && i%3 != len(out)%3 {
+			continue
+		}
+		pr := priors[i%3]
+		out = append(out, &scen{family: "bad-name-" + b.kind + "-same-mock-name-as-earlier", tree: t, argvPre: flagSets[i%3], srcArg: ".", names: []string{good[0] + ":Shared" + b.kind, b.name + ":Shared" + b.kind}, cwdRel: src,
+			out: mkOut(i), rm: i%2 == 0, prior: pr, fail: true, wantAny: b.want[:1]})
+		s := &scen{family: "bad-name-" + b.kind + "-default-mock-name-taken", tree: t, srcArg: ".", names: []string{good[0] + ":" + b.name + "Mock", good[len(good)-1] + ":Other" + b.kind, b.name}, cwdRel: src,
+			out: mkOut(i + 1), prior: priors[(i+1)%3], fail: true, wantAny: b.want[:1]}
+		if i%2 == 1 {
+			s.out = ""
+		}
+		out = append(out, s)
 	}
 	if tier == "thorough" {
 		for _, b := range bads {
